@@ -1,5 +1,7 @@
 import Soa.Lemmas.Positions
 import Batteries.Data.List.Perm
+import Soa.Model.Pinned
+import Soa.Extracted.Bodies
 /-!
 # C06 — iterators match std slice iterators under any consumption pattern
 
@@ -177,5 +179,14 @@ theorem yields_all (ss : List Step) (w : Win) (h : (runW ss w).2.l = 0) :
 
 /-! non-vacuity: window of 3 positions, steps F B B F F: yields 2, 4, 3, none, none -/
 example : (runW [.F, .B, .B, .F, .F] ⟨2, 3⟩).1 = [some 2, some 4, some 3, none, none] := by decide
+
+/-- **text pin**: the generated functions this property's hand-written model describes have, in
+    /repo today, exactly the text the model was written from (`Soa/Model/Pinned.lean`) -/
+theorem bodies_pinned :
+    Soa.Extracted.bodies.filter (fun r => Soa.Model.scopeOf r == "C06") =
+    Soa.Model.pinned.filter (fun r => Soa.Model.scopeOf r == "C06") := by decide +kernel
+
+theorem bodies_pinned_nonempty :
+    (Soa.Model.pinned.filter (fun r => Soa.Model.scopeOf r == "C06")).length ≥ 4 := by decide +kernel
 
 end Soa.C06
